@@ -142,7 +142,9 @@ def run_history(ops, types, inputs):
         if out[0] == "ok":
             results[i] = res
             mine = mutable_ids(res)
-            xin = mutable_ids(x) if x is not None else {}
+            # a container of the input may only re-appear in the result where the type passes its contents through by contract
+            # (Any / unparameterised containers); for fully annotated types the result is built anew
+            xin = mutable_ids(x) if x is not None and op.get("passthrough") else {}
             for cid, c in mine.items():
                 checks += 1
                 if cid in handed and cid not in xin and handed[cid][0] != i:
@@ -378,6 +380,11 @@ def run_case(sh, i, plan):
                 continue
             if ops and ops[-1]["kind"] in ("build", "marshal", "unmarshal", "encode", "decode") and (not lib_ops or lib_ops[-1] != len(ops) - 1):
                 lib_ops.append(len(ops) - 1)
+            # the very same input OBJECT offered again (fully annotated types must still hand out a new result)
+            if ops and ops[-1].get("x") is not None and ops[-1]["kind"] == "unmarshal" and rng.random() < 0.25:
+                ops.append(dict(ops[-1]))
+                lib_ops.append(len(ops) - 1)
+                sh.count("same_input_object_twice")
         # D27 scenario: the same unqualified string reference issued from two modules that both define the name
         if rng.random() < 0.15:
             other = U.Program(rng)
@@ -399,6 +406,9 @@ def run_case(sh, i, plan):
                 srcs_extra.append(f"{pr.name}.SameName")
                 ops.append({"kind": rng.choice(["unmarshal", "build"]), "t": len(types) - 1, "x": add({"x": "5"})})
                 lib_ops.append(len(ops) - 1)
+        for o in ops:
+            if "t" in o and (o["t"] in bare_idx or o["t"] in gen_idx or o["t"] in tw_idx or o["kind"] in ("strref", "marshal", "encode")):
+                o["passthrough"] = True  # marshal may hand back immutable inputs / pass-through members; only unmarshal of annotated types is strict
         if not lib_ops:
             return
         sh.count("histories")
